@@ -64,7 +64,7 @@ func defFor(check string) *checkDef {
 	case "C11":
 		return &checkDef{property: "C11", level: "exploration",
 			budget: map[string]tierCfg{"quick": {2500, 75}, "thorough": {100000, 1500}},
-			rule:   "one simulated run per seed on the file-system directory with retention count N in {1,2,3}, 1-3 client actors that also hold Readers (from the writer and from the live directory via OpenReader) open and closed at scheduled instants and attempt a second OpenWriter; after every window containing a directory mutation the real directory is scanned and every snapshot file parsed (exported decoder + CRC): (i) at least min(N, commits) snapshots are loadable with all their segment files, (ii) no segment file that the writer's root or an open reader refers to is missing, and no successful Remove named one, (iii) held readers re-read equal to their baseline, (iv) every closer returned by Load is closed exactly once and no descriptor under the directory is open after the last Close (os seam), (v) OpenWriter right after Close succeeds and shows the abstract index, (vi) a second OpenWriter on the locked directory is refused while the first keeps satisfying the model. distinct = distinct release sequences; non-trivial = background step interleaved between client operations",
+			rule:   "one simulated run per seed on the file-system directory with retention count N in {1,2,3}, 1-3 client actors that also hold Readers (from the writer and from the live directory via OpenReader) open and closed at scheduled instants and attempt a second OpenWriter; after every window containing a directory mutation the real directory is scanned and every snapshot file parsed (exported decoder + CRC): (i) at least min(N, commits) snapshots are loadable with all their segment files, (ii) no segment file that the writer's root or an open reader refers to is missing, and no successful Remove named one, (iii) held readers re-read equal to their baseline, (iv) every closer returned by Load is closed exactly once and no descriptor under the directory is open after the last Close (os seam), (v) OpenWriter right after Close succeeds and shows the abstract index, (vi) a second OpenWriter on the locked directory is refused while the first keeps satisfying the model, (vii) no persist or removal is issued through a writer's directory after that writer released the lock. distinct = distinct release sequences; non-trivial = background step interleaved between client operations",
 			assume: commonAssume,
 			probes: []string{"dir-invariant-evaluations", "segment-removals-checked", "remove-refused-while-reader-open", "second-writer-refused", "live-openreader", "reopened-writer-after-close", "descriptors-all-closed"}}
 	case "C12":
